@@ -254,7 +254,39 @@ def run_case(base, case, acc, force_dense=False):
 CRASH_IS_VIOLATION = True
 
 
+def run_probe(pr, acc):
+    """Scripted case for the recorded finding about a solver switch inside a context (the
+    operation is kept out of the random in-context workload, see DESIGN.md 9.4a)."""
+    from cv.props.c03 import _probe_model
+
+    model = _probe_model()
+    exc = None
+    try:
+        with model:
+            model.objective = "R"  # its undo entry holds an Objective over the current solver's variables
+            model.solver = "glpk_exact"
+    except Exception as e:
+        exc = e
+    acc.ev()
+    acc.count("probes_run")
+    try:
+        model.solver.update()
+        probs = observe.fba_problems(model)
+    except Exception as e:
+        probs = [f"observer could not read the model: {type(e).__name__}: {str(e)[:120]}"]
+    if probs or exc is not None:
+        acc.violation(
+            "C01/ctx.exit/solver-switched-inside-the-context/undo-entries-hold-objects-of-the-replaced-solver",
+            f"with model: model.objective = 'R'; model.solver = 'glpk_exact' -> exit raised {type(exc).__name__ if exc else None}; afterwards: {probs[0] if probs else 'consistent'}",
+            {"probe": pr["name"], "exit_exception": hist.describe_exc(exc) if exc else None, "problems": probs[:4]},
+        )
+
+
 def run_shard(desc, acc):
+    if desc.get("kind") == "probes":
+        for pr in desc["probes"]:
+            run_probe(pr, acc)
+        return
     first = desc.get("first", 0)
     for case in range(first, first + desc["cases"]):
         run_case(desc["base"], case, acc)
